@@ -93,7 +93,7 @@ def main(ck):
       m.opt.tolerance = 0.0 if solver != PGS else 1e-14
       m.opt.iterations = {NEWTON: ITER, CG: 2 * ITER, PGS: 2000}[solver]
       m.opt.disableflags = base_dis | (0 if island else E.mjDSBL_ISLAND) | (0 if eulerdamp else E.mjDSBL_EULERDAMP)
-      m.opt.enableflags = base_en | E.mjENBL_FWDINV
+      m.opt.enableflags = base_en
       tag = '%s/%s/%s' % (names[solver], 'island' if island else 'mono', 'sparse' if jac == E.mjJAC_SPARSE else 'dense')
       d1 = lib.copy_data(m, d0)
       try:
@@ -107,7 +107,6 @@ def main(ck):
         ck.discard('engine-warning')
         return
       nefc = int(d1.nefc)
-      fwdinv = np.array(d1.solver_fwdinv, dtype=np.float64)
       a = np.array(d1.qacc, dtype=np.float64)
       if not np.all(np.isfinite(a)):
         ck.discard('nonfinite-qacc')
@@ -116,12 +115,20 @@ def main(ck):
       rhs, rhs_mag = applied_rhs(lib, m, d1)
       # rounding scale of the identity
       M = lib.fullM(m, d1)
+      evM = np.linalg.eigvalsh(M)
+      condM = float(evM[-1] / evM[0])
       scale = np.abs(M) @ np.abs(a) + np.abs(np.array(d1.qfrc_bias)) + np.abs(np.array(d1.qfrc_passive)) + rhs_mag
       rep = 0.0
       conv = True
       if nefc:
         P = cons.Problem(lib, m, d1)
         aJ = np.abs(P.J)
+        # HARNESS rule 2: stiffness/inertia ratio of the constrained problem above 1e8 (e.g. R ~ 1e-15 rows of contacts that
+        # cannot move their body): forces are dominated by cancellation; label + skip, counted
+        Yw = np.linalg.solve(np.linalg.cholesky(M), P.J.T)
+        if 1.0 + float(np.linalg.eigvalsh((Yw * P.D) @ Yw.T)[-1]) > 1e8:
+          ck.discard('illconditioned(stiffness/inertia>1e8)')
+          return
         fs = np.abs(f_fwd) + P.D * (aJ @ (np.abs(a) + np.abs(P.a0)) + np.abs(P.aref))
         for (i, dim, mu) in P.ell:
           fs[i:i + dim] = np.abs(f_fwd[i:i + dim]).max() + P.D[i:i + dim].max() * max(1.0, float((1 / mu).max()), float(mu.max())) * \
@@ -158,10 +165,8 @@ def main(ck):
       sn = float(np.linalg.norm(scale)) + 1e-300
       if not conv:
         continue
-      if nefc and rep * Sc * C_REP > K_CONT * EPS * sn:
-        labels.add(names[solver] + ':unconverged(reported)')
-      else:
-        labels.add(names[solver] + ':converged')
+      unconv = bool(nefc and rep * Sc * C_REP > K_CONT * EPS * sn)
+      labels.add(names[solver] + (':unconverged(reported)' if unconv else ':converged'))
       bound_rep = C_REP * rep * (Sc if nefc else 0.0)
       # ---------------- continuous inverse at the forward acceleration
       d2 = lib.copy_data(m, d1)
@@ -185,17 +190,22 @@ def main(ck):
           if e > K_EFC:
             raise Violation('%s: efc_force of mj_inverse differs from the forward one: |df| = %.6g (%.3g eps of the rounding '
                             'scale)' % (tag, np.linalg.norm(f_inv - f_fwd), e), bucket='inverse-efc')
-        # fwdinv statistics of the forward call obey the same bound
-        fw = float(np.max(fwdinv))
-        worst['fwdinv'] = max(worst['fwdinv'], (fw - bound_rep) / (EPS * sn))
-        if solver != PGS and fw > bound_rep + K_CONT * EPS * sn:
-          raise Violation('%s: solver_fwdinv = %s exceeds the bound %.3g + %.3g' % (tag, fwdinv, bound_rep, K_CONT * EPS * sn),
-                          bucket='fwdinv-statistic')
       # ---------------- discrete inverse
-      if solver == NEWTON or rng.randint(2):
-        m.opt.enableflags = base_en
+      # (only for converged runs: the integrators advance with M^-1-free formulas built on qfrc_constraint, so for an
+      #  unconverged qacc the finite-differenced acceleration corresponds to a different point of the cost)
+      if (solver == NEWTON or rng.randint(2)) and not unconv:
+        m.opt.enableflags = base_en | E.mjENBL_FWDINV
         d3 = lib.copy_data(m, d0)
         lib.mj_step(m, d3)
+        m.opt.enableflags = base_en
+        # fwdinv statistics recorded inside mj_step obey the bound of the continuous identity
+        fwdinv = np.array(d3.solver_fwdinv, dtype=np.float64)
+        fw = float(np.max(fwdinv))
+        if nefc and solver != PGS:
+          worst['fwdinv'] = max(worst['fwdinv'], (fw - bound_rep) / (EPS * sn))
+          if fw > bound_rep + K_CONT * EPS * sn:
+            raise Violation('%s: solver_fwdinv = %s recorded by mj_step exceeds the bound %.3g + %.3g' % (
+                tag, fwdinv, bound_rep, K_CONT * EPS * sn), bucket='fwdinv-statistic')
         if lib.warnings() or not np.all(np.isfinite(d3.qvel)):
           labels.add('step-warning')
           continue
@@ -208,7 +218,8 @@ def main(ck):
         qi = np.array(d4.qfrc_inverse, dtype=np.float64)
         # extra rounding: velocity difference / h and the damping-modified inertia
         vs = (np.abs(np.array(d3.qvel)) + np.abs(np.array(d0.qvel))) / h
-        sn_d = float(np.linalg.norm(scale + np.abs(M) @ (np.abs(ad) + vs * 1.0))) + 1e-300
+        # the conversion a_d -> qacc solves with the inertia: rounding amplified by cond(M) (tolerance policy of DESIGN 4)
+        sn_d = condM * float(np.linalg.norm(scale + np.abs(M) @ (np.abs(ad) + vs))) + 1e-300
         err = float(np.linalg.norm(qi - rhs))
         worst['disc'] = max(worst['disc'], (err - bound_rep) / (EPS * sn_d))
         if err > bound_rep + K_DISC * EPS * sn_d:
@@ -217,7 +228,7 @@ def main(ck):
                                        K_DISC * EPS * sn_d, nefc), bucket='inverse-discrete')
         if nefc and solver != PGS:
           f_inv = np.array(d4.efc_force, dtype=np.float64)[:nefc]
-          e = float(np.linalg.norm(f_inv - f_fwd) / (EPS * np.linalg.norm(fs + P.D * (aJ @ (np.abs(ad) + vs))) + 1e-300))
+          e = float(np.linalg.norm(f_inv - f_fwd) / (EPS * condM * np.linalg.norm(fs + P.D * (aJ @ (np.abs(ad) + vs))) + 1e-300))
           worst['efc'] = max(worst['efc'], e)
           if e > K_EFC:
             raise Violation('%s: efc_force of the discrete inverse differs from the forward one: |df| = %.6g (%.3g eps)' % (
